@@ -45,6 +45,13 @@ func arrayNode(t *rapid.T, c *core.Ctx, ctx *sgen.Ctx, depth int) *model.Node {
 				lo = *mn
 			}
 			mx = model.IntP(rapid.IntRange(lo, lo+2).Draw(t, "max"))
+			if mn == nil && rapid.IntRange(0, 7).Draw(t, "maxzero") == 0 {
+				if c.Avoid("arrays.max_items_zero") {
+					c.ExcludedMap()["arrays.max_items_zero"]++
+				} else {
+					mx = model.IntP(0)
+				}
+			}
 		}
 		levels = append(levels, [2]*int{mn, mx})
 	}
